@@ -19,10 +19,17 @@ def _conn(log, name, it):
     state = {"open": True}
 
     def write(it2, a, k):
-        kk = it2.ctx.choose([z3.BoolVal(True), z3.BoolVal(True)], labels=["write-ok", "write-oserror"], site="conn.write")
+        # a failing write raises OSError - or one of the subclasses the connection types really raise (pyserial's write
+        # timeout, a port that was closed meanwhile, a reset by the peer): a handler that singles one of them out
+        # is a path of its own
+        import serial
+
+        errors = [OSError, serial.SerialException, serial.SerialTimeoutException, serial.PortNotOpenError, ConnectionResetError, TimeoutError]
+        kk = it2.ctx.choose([z3.BoolVal(True)] * (1 + len(errors)), labels=["write-ok"] + ["write-" + c_.__name__ for c_ in errors], site="conn.write")
         log.append(("write", name, a[0], state["open"]))
-        if kk == 1:
-            raise PyRaise(ExcVal(OSError, ("write failed",), site="conn.write"))
+        if kk >= 1:
+            cls_ = errors[kk - 1]
+            raise PyRaise(ExcVal(cls_, () if cls_ is serial.PortNotOpenError else ("write failed",), site="conn.write"))
         return None
 
     def close(it2, a, k):
